@@ -34,6 +34,8 @@ def run(ctx: Context) -> None:
 
 def reward(ctx: Context) -> None:
     f = ctx.func(f"{ENV}.get_reward")
+    from ..util import require_readable
+    require_readable(ctx.prog, f)
     g = CFG(f.node)
     n = normaliser(ctx.prog, f, inline_locals=False)
     best = "best_loss"
@@ -99,6 +101,8 @@ def reward(ctx: Context) -> None:
 def learn(ctx: Context) -> None:
     prog = ctx.prog
     f = ctx.func(f"{AG}.learn")
+    from ..util import require_readable
+    require_readable(prog, f, ctx.func(f"{AG}.get_step_size"))
     g = CFG(f.node)
     n = normaliser(prog, f)
     if "action" not in f.params or "reward" not in f.params:
@@ -184,6 +188,8 @@ def learn(ctx: Context) -> None:
 def policy(ctx: Context) -> None:
     prog = ctx.prog
     f = ctx.func(f"{AG}.policy")
+    from ..util import require_readable
+    require_readable(prog, f)
     g = CFG(f.node)
     n = normaliser(prog, f)
     nn = normaliser(prog, f, inline_locals=False)
